@@ -762,6 +762,14 @@ func (r *collection) addService(service any, lifetime Lifetime, opts ...AddOptio
 // Regular services are registered by type and key,
 // and grouped services are registered in their respective groups.
 func (r *collection) registerDescriptor(descriptor *Descriptor) error {
+	// Reserved types can never be registered, whatever form produced the descriptor
+	if _, isReserved := reservedTypes[descriptor.Type]; isReserved {
+		return &ValidationError{
+			ServiceType: descriptor.Type,
+			Cause:       fmt.Errorf("service type %s is reserved and cannot be registered", formatType(descriptor.Type)),
+		}
+	}
+
 	// Register based on type of service
 	if descriptor.Key != nil || descriptor.Group == "" {
 		key := TypeKey{Type: descriptor.Type, Key: descriptor.Key}
